@@ -184,6 +184,15 @@ Proof.
   unfold body_start, Nlen. rewrite app_length, header_length, zoom_dir_length. lia.
 Qed.
 
+Lemma off_ge p : In p (needed_pids L X bt) -> 64 <= o p.
+Proof.
+  intros Hin. destruct wf_parts as (_ & _ & _ & _ & _ & Hp). unfold wf_place in Hp.
+  apply andb_true_iff in Hp as [_ Hp]. rewrite forallb_forall in Hp. specialize (Hp p Hin).
+  destruct (plookup p (offsets L X bt)) as [off|] eqn:E; [|discriminate].
+  assert (Ho : o p = off) by (unfold o, off_fn; now rewrite E). rewrite Ho.
+  unfold offsets in E. apply off_table_ge in E. unfold body_start in E. lia.
+Qed.
+
 Lemma needed_count : In PCount (needed_pids L X bt).
 Proof. unfold needed_pids. cbn [app]. now left. Qed.
 Lemma needed_summary s : x_summary X = Some s -> In PSummary (needed_pids L X bt).
